@@ -108,6 +108,13 @@ func opIDs2(ops []b2.Operation) []int64 {
 	return ids
 }
 
+// busy: the listener takes its time (user code runs inside Emit, in the processing loop's goroutine)
+func (r *v2run) busy(d int64) {
+	if d > 0 {
+		time.Sleep(time.Duration(d))
+	}
+}
+
 func (r *v2run) listener(event string, val int, msg string, metadata interface{}) {
 	switch event {
 	case b2.BatchEvent:
@@ -129,8 +136,10 @@ func (r *v2run) listener(event string, val int, msg string, metadata interface{}
 		r.log.Logf("L", "shutdown")
 	case b2.AuditSkipEvent:
 		r.log.Logf("L", "auditskip")
+		r.busy(r.sc.BusyAudit)
 	case b2.AuditPassEvent:
 		r.log.Logf("L", "auditpass")
+		r.busy(r.sc.BusyAudit)
 	case b2.AuditFailEvent:
 		tb, ib := 0, 0
 		switch msg {
@@ -142,12 +151,14 @@ func (r *v2run) listener(event string, val int, msg string, metadata interface{}
 			ib = 1
 		}
 		r.log.Logf("L", "auditfail %d %d", tb, ib)
+		r.busy(r.sc.BusyAudit)
 	case b2.RequestEvent:
 		r.log.Logf("L", "request %d", val)
 	case b2.FlushStartEvent:
 		r.log.Logf("L", "flushstart")
 	case b2.FlushDoneEvent:
 		r.log.Logf("L", "flushdone")
+		r.busy(r.sc.BusyFD)
 	default:
 		r.log.Logf("L", "unknown-event %s %d", event, val)
 	}
